@@ -192,6 +192,32 @@ def api_field(t, v):
     return [tuple(api(l, plain(l, c), _hint(l, c)) for l, c in zip(ls, seq(e))) for e in seq(v)]
 
 
+def _fat_header(p):
+    """the header value p handed over as the block it belongs to: a block object that also carries transactions.
+    pycoin has one class for both (Block; `as_blockheader()` is optional), so whoever relays the headers of blocks it
+    holds passes such objects; the header field of a message is the 80 header bytes whatever else the object carries."""
+    Tx = N().tx
+    b = N().block(*p)
+    b.set_txs([Tx(1, [Tx.TxIn(b"\x01" * 32, 0, b"\x51")], [Tx.TxOut(1, b"\x51")]),
+               Tx(2, [Tx.TxIn(b"\x02" * 32, 1, b"")], [Tx.TxOut(2, b"")])], check_merkle_hash=False)
+    return b
+
+
+def api_field_fat(t, v):
+    """api_field with every header ('z') given as a block object carrying transactions; None if t has no header"""
+    arr, ls = letters(t)
+    if "z" not in ls:
+        return None
+
+    def one(l, x):
+        return _fat_header(plain(l, x)) if l == "z" else api(l, plain(l, x), _hint(l, x))
+    if not arr:
+        return one(ls, v)
+    if len(ls) == 1:
+        return [one(ls, e) for e in seq(v)]
+    return [tuple(one(l, c) for l, c in zip(ls, seq(e))) for e in seq(v)]
+
+
 def api_field_from_plain(t, p, v4form=False):
     arr, ls = letters(t)
 
@@ -425,6 +451,21 @@ def check_msg_record(rec, sym="BTC"):
     if got is not None and got != want_bytes:
         fail("pack", "bytes-differ|field=" + first_diff_field(seq(rec["sizes"]), names, want_bytes, got),
              {"want": want_bytes[:400].hex(), "got": bytes(got)[:400].hex(), "want_len": len(want_bytes), "got_len": len(got)})
+
+    # ---- the same message with each header handed over as a block object that carries transactions
+    if kwargs is not None and got == want_bytes and any("z" in letters(f["t"])[1] for f in pf):
+        try:
+            kw2 = {f["n"]: (api_field_fat(f["t"], f["v"]) if "z" in letters(f["t"])[1] else kwargs[f["n"]]) for f in pf}
+        except Exception as e:  # noqa: BLE001
+            kw2 = None
+            fail("construct", "block-with-txs|exc=" + type(e).__name__, repr(e)[:300])
+        if kw2 is not None:
+            r = guarded((name, "pack"), M.pack, name, **kw2)
+            if r[0] == "exc":
+                fail("pack", "header-given-as-block-with-txs|" + exc_what(r), r[2])
+            elif r[0] == "ok" and r[1] != want_bytes:
+                fail("pack", "header-given-as-block-with-txs|bytes-differ",
+                     {"want_len": len(want_bytes), "got_len": len(r[1]), "got": bytes(r[1])[:200].hex()})
 
     # ---- parse (the spec's bytes, so that a failing pack does not hide the parser)
     r = guarded((name, "parse"), M.parse, name, want_bytes)
